@@ -39,7 +39,9 @@ def scenario(args):
         k += 1
         if cfg.get("ackpl") and peer == "listening" and not c.get("noload"):
             lp.load_ack(bytes([0xAC, k, seed & 0xFF]))
-        if c["api"] == "resend":
+        if c["api"] == "txread":
+            ev.append(lp.txread())
+        elif c["api"] == "resend":
             ev.append(lp.call("resend", send_only=c.get("send_only", False), fates=c.get("fates")))
         elif c["api"] == "sendlist":
             bufs = [payload(n_, 10 * k + i, rng) for i, n_ in enumerate(rng.sample(range(1, 33), c["n"]))]   # distinct lengths
@@ -108,11 +110,18 @@ def build_jobs(chk, tx_lite=False, rx_lite=False):
     so_alpha = [dict(api=a, fr=0, send_only=so, fates=list(f)) for a in ("send", "resend") for so in (False, True)
                 for f in ("D", "PP")]
     so_alpha += [dict(api="send", fr=fr, send_only=False, fates=list(f), noload=True) for fr in (0, 1) for f in ("D", "PPD")]   # empty ACKs
+    so_alpha.append(dict(api="txread"))          # the PTX reads the ACK payloads that send_only calls left in its RX FIFO
     so_hist = list(itertools.product(so_alpha, repeat=3))
     if quick:
         so_hist = rng.sample(so_hist, 300)
     for cs in so_hist:
         add(dict(arc=1, ard=250, ackpl=True), list(cs))
+    # an ACK payload left in the PTX's RX FIFO, a failed call, the application reads its RX FIFO, then the next call
+    for fail in (dict(api="send", fr=0, send_only=True, fates=list("PP")), dict(api="send", fr=1, send_only=False, fates=list("PPPP")),
+                 dict(api="send", fr=0, send_only=False, fates=list("AA"))):
+        for nxt in so_alpha:
+            add(dict(arc=1, ard=250, ackpl=True),
+                [dict(api="send", fr=0, send_only=True, fates=["D"]), fail, dict(api="txread"), nxt])
     # (c) seeded large setups
     for _ in range(60 if quick else 1500):
         arc = rng.randrange(16)
@@ -172,7 +181,7 @@ def run(chk, tx_lite=False, rx_lite=False):
             e = t["ev"][v["at"] - 1]
             src = t["ev"][v["at"] - 2] if e["k"] == "drain" else e
             import re as _re
-            key = "%s:%s:%s" % (v["clause"], src["api"] + ("+fr" if src.get("fr") else ""), _re.sub(r"\d+", "N", v["detail"]))
+            key = "%s:%s:%s" % (v["clause"], src.get("api", src["k"]) + ("+fr" if src.get("fr") else ""), _re.sub(r"\d+", "N", v["detail"]))
             ncalls = sum(1 for x in t["ev"][: v["at"]] if x["k"] != "drain")
             if key not in found or ncalls < found[key][0]:
                 found[key] = (ncalls, t, v, src)
